@@ -5,6 +5,7 @@ package main
 //
 // input  := "D:" desc;desc.. "|R:" reqs "|C:" cred;cred..
 //   desc := ID/GROUPS/KIND/ATTR/VAL     GROUPS: letters A..C or "-" ; KIND: e (field exists) | c (string const) |
+//           C | P | M (the c / p / m filter on an OPTIONAL field next to "a0 exists"; makes the definition version 2) |
 //           p (pattern ^VAL) | m (number minimum VAL) | n (no constraints.fields at all: subject_is_issuer only)
 //   reqs := "-" (no submission requirements) | req+req..
 //   req  := RULE(GROUP;k=v;..) | RULE[req,req;k=v;..]      RULE: all | pick ; k: count | min | max
@@ -110,6 +111,7 @@ func c20Run(input string) string {
 	// definition
 	var descs []interface{}
 	descAttr := map[string]string{}
+	v2 := false
 	for _, d := range strings.Split(strings.TrimPrefix(parts[0], "D:"), ";") {
 		f := strings.Split(d, "/")
 		descAttr[f[0]] = f[3]
@@ -123,6 +125,14 @@ func c20Run(input string) string {
 			desc["group"] = gs
 		}
 		field := map[string]interface{}{"path": []string{"$." + f[3]}}
+		// upper case kinds: the same filter on an OPTIONAL field (absent is fine, present must pass the filter), next to
+		// a required field (attribute a0 exists). Optional fields belong to version 2 definitions: no `schema` member.
+		optional := f[2] == "C" || f[2] == "P" || f[2] == "M"
+		if optional {
+			field["optional"] = true
+			f[2] = strings.ToLower(f[2])
+			v2 = true
+		}
 		switch f[2] {
 		case "c":
 			field["filter"] = map[string]interface{}{"type": "string", "const": f[4]}
@@ -136,12 +146,20 @@ func c20Run(input string) string {
 				field["predicate"] = "required"
 			}
 		}
-		if f[2] == "n" {
+		switch {
+		case f[2] == "n":
 			desc["constraints"] = map[string]interface{}{"subject_is_issuer": "preferred"}
-		} else {
+		case optional:
+			desc["constraints"] = map[string]interface{}{"fields": []interface{}{map[string]interface{}{"path": []string{"$.a0"}}, field}}
+		default:
 			desc["constraints"] = map[string]interface{}{"fields": []interface{}{field}}
 		}
 		descs = append(descs, desc)
+	}
+	if v2 {
+		for _, d := range descs {
+			delete(d.(map[string]interface{}), "schema")
+		}
 	}
 	def := map[string]interface{}{"id": "def1", "input_descriptors": descs}
 	if r := strings.TrimPrefix(parts[1], "R:"); r != "-" {
@@ -240,8 +258,12 @@ func c20Run(input string) string {
 	if err != nil {
 		return holder + "|err parse-vp"
 	}
-	matched, err := pd.Match([]*verifiable.Presentation{vp2}, c20Loader,
-		presexch.WithCredentialOptions(verifiable.WithDisabledProofCheck(), verifiable.WithJSONLDDocumentLoader(c20Loader)))
+	mopts := []presexch.MatchOption{presexch.WithCredentialOptions(verifiable.WithDisabledProofCheck(),
+		verifiable.WithJSONLDDocumentLoader(c20Loader))}
+	if v2 {
+		mopts = append(mopts, presexch.WithDisableSchemaValidation())
+	}
+	matched, err := pd.Match([]*verifiable.Presentation{vp2}, c20Loader, mopts...)
 	if err != nil {
 		if os.Getenv("VERIF_TRACE") != "" {
 			fmt.Fprintln(os.Stderr, "match error:", err)
@@ -293,6 +315,7 @@ func c20Gen(r *Rng, tier string) []string {
 	for i := 0; i < n; i++ {
 		nd := 2 + r.N(4)
 		var ds []string
+		optDef := r.N(6) == 0 // a version 2 definition with optional fields
 		for d := 0; d < nd; d++ {
 			groups := ""
 			for _, g := range []string{"A", "B", "C"} {
@@ -307,8 +330,11 @@ func c20Gen(r *Rng, tier string) []string {
 			if r.N(25) == 0 {
 				kind = "n"
 			}
+			if optDef && kind != "q" && kind != "n" && r.N(2) == 0 {
+				kind = map[string]string{"e": "C", "c": "C", "p": "P", "m": "M"}[kind] // filter on an optional field
+			}
 			val := []string{"x", "x", "x", "y", "xy"}[r.N(5)]
-			if kind == "m" || kind == "q" {
+			if kind == "m" || kind == "q" || kind == "M" {
 				val = strconv.Itoa(5 + r.N(3)*5)
 			}
 			ds = append(ds, fmt.Sprintf("d%d/%s/%s/%s/%s", d, groups, kind, attrs[r.N(len(attrs))], val))
